@@ -267,7 +267,8 @@ LABEL_SETS = {
     "ab": ["a", "b"],
     "bac": ["b", "a", "c"],      # deliberately given unsorted
     "neg": [-1, 5, 20],
-    "half": [0.5, 1.5],
+    "flt": [2.0, 7.0],           # float dtype, discrete values (fractional labels are
+                                 # continuous targets by scikit-learn convention: outside C17)
 }
 
 
